@@ -8,11 +8,14 @@ from fractions import Fraction
 
 import vlib
 from gen import c01_annot as A
+from gen import c01_cmp as CMP
 
 ID = "C01"
-PROPS = ["IsoVerif/Props/C01.lean", "IsoVerif/Props/C01Path.lean", "IsoVerif/Props/C01Far.lean"]
-TARGETS = ["IsoVerif.Props.C01", "IsoVerif.Props.C01Path", "IsoVerif.Props.C01Far"]
-GEN_DEPS = ["Prims", "Enums", "EventClasses", "Strategies"]
+PROPS = ["IsoVerif/Props/C01.lean", "IsoVerif/Props/C01Path.lean", "IsoVerif/Props/C01Far.lean",
+         "IsoVerif/Props/C01Compare.lean", "IsoVerif/Props/C01Converse.lean"]
+TARGETS = ["IsoVerif.Props.C01", "IsoVerif.Props.C01Path", "IsoVerif.Props.C01Far", "IsoVerif.Props.C01Compare",
+           "IsoVerif.Props.C01Converse"]
+GEN_DEPS = ["Prims", "Enums", "EventClasses", "Strategies", "ComparatorTables"]
 LEVEL = "proof"
 RULE = ("seeded random annotations (1-3 overlapping / nested / antisense genes, 1-6 isoforms each: exon skipping, alt 5'/3' "
         "sites at 0..13 and 20..150 bp, intron retention, truncated / extended ends, mono-exon, novel exons) at genome scale "
@@ -22,16 +25,29 @@ RULE = ("seeded random annotations (1-3 overlapping / nested / antisense genes, 
         "novel exon, retained intron, shifted site, extended end, novel intron), arbitrary block lists, with and without "
         "polyA/T positions; a case is non-trivial when the model returns a non-error assignment with at least one isoform "
         "and model == implementation; distinct by (annotation, parameters, blocks, polyA)")
-TRUSTED = ["Gen/EventClasses.lean, Gen/Enums.lean, Gen/Strategies.lean are extracted from src/isoform_assignment.py / "
-           "isoquant.py (each table row is also compared with the Python object through the driver on every run)",
-           "JunctionComparator.compare_junctions is NOT modelled: its per-isoform event lists are an input of the model "
-           "(theorems quantify over them; the correspondence feeds the real lists)"]
+TRUSTED = ["Gen/EventClasses.lean, Gen/Enums.lean, Gen/Strategies.lean, Gen/ComparatorTables.lean are extracted from "
+           "src/isoform_assignment.py / isoquant.py / src/junction_comparator.py (each table row is also compared with the "
+           "Python object through the driver on every run)",
+           "JunctionComparator.compare_junctions IS modelled (Model/JunctionCompare.lean) and compared with the real comparator "
+           "(events, contradictory region pairs, read presence list) on the literal corpus of tests/test_long_read_assigner.py, "
+           "exhaustive / sampled small universes, random and malformed chains, and for every (read, isoform) of the generated "
+           "annotations; the assigner is compared both with the real comparator's answer as input (`assign`) and with the "
+           "modelled comparator (`assign_m`)",
+           "harness/gen/c01_cmp.py: RealComparator (builds the comparator as LongReadAssigner.__init__ does; the constructor "
+           "expression is checked against the source on every run), py_tolerance / py_chains_wf (the oracle's position-only "
+           "form of the theorems' hypotheses, compared with the Lean predicates through driver op C01.tolerance)"]
 ASSUMPTIONS = ["CPython int semantics = Lean Int",
                "isoform ids are zero-padded so that their string order is the list order (the model uses list positions)",
                "nucleotide scores / penalty scores are exact rationals in the model; a case whose float decision in the "
                "real code differs from the exact decision is detected by Fraction recomputation, counted as "
                "`float_divergence` in the evidence and excluded from the diff",
-               "the penalty written by the real code is compared to the model's fraction within 1e-9"]
+               "the penalty written by the real code is compared to the model's fraction within 1e-9",
+               "comparator: the float parameters max_intron_rel_diff, min_rel_exon_overlap, max_suspicious_intron_rel_len "
+               "are the small fractions they are written as (0.2 = 1/5, 0.0, 1.0; the test corpus also has 0.1); a "
+               "comparator case whose result changes when the real code is re-run with Fraction parameters is counted as "
+               "`float_divergence` and excluded (none observed: 0.2*m and round(0.2*len) decide like 1/5 for all ints)",
+               "comparator: intron lists are shorter than 2^31 - 1, so the sentinel absent_position never equals a list "
+               "index (the model keeps the three kinds of contradictory region pair apart by constructor)"]
 
 PARAM_FIELDS = ["delta", "minor_exon_extension", "major_exon_extension", "min_abs_exon_overlap", "apa_delta",
                 "minimal_exon_overlap", "minimal_intron_absence_overlap", "max_fake_terminal_exon_len",
@@ -418,6 +434,7 @@ def run_world(ctx, tiny, n_reads, records):
             records.append(("gene", {"isoforms": ij}, {"error": "error", "exc": type(ex).__name__}, None))
             continue
         pj = params_json(params)
+        cq = CMP.cparams_json(params)
         if first:
             records.append(("gene", {"isoforms": ij}, gene_json(built), None))
             first = False
@@ -439,6 +456,15 @@ def run_world(ctx, tiny, n_reads, records):
                 out = {"error": "error", "exc": type(ex).__name__}
             kw = dict(base, cj=cj)
             records.append(("assign", kw, out, (isoforms, params, kind)))
+            # the same assignment with the MODELLED comparator (no cj input), and the comparator itself per isoform
+            records.append(("assign_m", dict(base, cparams=cq), out, (isoforms, params, kind)))
+            if ctx.rng.random() < 0.5:
+                rf = prof.read_split_exon_profile.read_features
+                for i, tid in enumerate(built.ids):
+                    ckw = CMP.case(params, built.gene.intron_profiles.features, (built.gene.start, built.gene.end),
+                                   prof.read_intron_profile.read_features, (rf[0][0], rf[-1][1]),
+                                   built.gene.all_isoforms_introns[tid], built.gene.transcript_region(tid))
+                    records.append(("compare", ckw, cj[i] if cj[i] is not None else {"error": "error"}, (params,)))
 
 
 def diagnose_float(ctx, kw, extra):
@@ -450,7 +476,17 @@ def diagnose_float(ctx, kw, extra):
     sc = ctx.driver.run([vlib.req("C01.scores", **base)])[0]
     if isinstance(sc, list) and float_sensitive(built, prof, sc):
         return True
-    return penalty_float_sensitive(built, prof, kw["cj"])
+    cj = kw["cj"] if "cj" in kw else built.compare_all(prof)
+    if "cj" not in kw:
+        # modelled comparator: a float decision inside compare_junctions itself
+        rf = prof.read_split_exon_profile.read_features
+        for i, tid in enumerate(built.ids):
+            ckw = CMP.case(params, built.gene.intron_profiles.features, (built.gene.start, built.gene.end),
+                           prof.read_intron_profile.read_features, (rf[0][0], rf[-1][1]),
+                           built.gene.all_isoforms_introns[tid], built.gene.transcript_region(tid))
+            if vlib.canon(CMP.impl_compare_exact(ckw, params)) != vlib.canon(cj[i] if cj[i] is not None else {"error": "error"}):
+                return True
+    return penalty_float_sensitive(built, prof, cj)
 
 
 def correspondence(ctx):
@@ -460,6 +496,8 @@ def correspondence(ctx):
     ctx.diff_batch("C01", tcases, impl_table)
     ccases = classify_cases(ctx, 300 if quick else 3000)
     ctx.diff_batch("C01", ccases, lambda op, kw: impl_classify(kw))
+    # 1b. JunctionComparator.compare_junctions on its own: test corpus first, small universes, random and malformed chains
+    correspondence_compare(ctx)
     # 2. gene model, read profiles, assignment
     records = []
     n_worlds = (220, 140) if quick else (3000, 1800)
@@ -478,27 +516,39 @@ def correspondence(ctx):
         ctx.traces_validated += 1
         if vlib.is_err(mo):
             ctx.count("model_error")
-        ok = same_assignment(mo, io) if op == "assign" else vlib.same(mo, vlib.canon(io))
+        ok = same_assignment(mo, io) if op in ("assign", "assign_m") else vlib.same(mo, vlib.canon(io))
         if not ok and len(ctx.disagreements) >= 60:
             ctx.count("disagreements_not_recorded")
             continue
-        if not ok and op == "assign" and not vlib.is_err(io):
+        if not ok and op in ("assign", "assign_m") and not vlib.is_err(io):
             try:
                 if diagnose_float(ctx, kw, extra):
                     ctx.count("float_divergence")
                     continue
             except ERRS:
                 pass
+        if not ok and op == "compare" and not vlib.is_err(io):
+            if vlib.canon(CMP.impl_compare_exact(kw, extra[0])) != vlib.canon(io):
+                ctx.count("float_divergence")
+                continue
         if not ok:
             ctx.disagree(op, slim(kw), mo, io)
             continue
-        if op == "assign" and not vlib.is_err(mo):
+        if op == "compare" and not vlib.is_err(mo):
+            for e in mo:
+                ctx.count("cmp_event:" + e[0])
+            if any(e[0] != "none" for e in mo):
+                ctx.mark_nontrivial(["compare", kw["read_junctions"], kw["read_region"], kw["iso_junctions"], kw["iso_region"],
+                                     kw["params"]["delta"]])
+        elif op == "assign_m" and not vlib.is_err(mo):
+            ctx.count("path_m:" + mo["path"])
+        elif op == "assign" and not vlib.is_err(mo):
             ctx.count("path:" + mo["path"])
             ctx.count("type:" + mo["type"])
             ctx.count("readkind_type:%s:%s" % (extra[2], mo["type"]))
             if any(m["iso"] is not None for m in mo["matches"]):
                 ctx.mark_nontrivial([kw["isoforms"], kw["params"], kw["blocks"], kw["polya"]])
-        elif op != "assign" and not vlib.is_err(mo):
+        elif op not in ("assign", "assign_m", "compare") and not vlib.is_err(mo):
             ctx.mark_nontrivial([op, kw.get("isoforms"), kw.get("blocks"), kw.get("polya")])
         if len(ctx.samples) < 8 and ctx.rng.random() < 0.002:
             ctx.sample({"op": op, "input": slim(kw), "model": mo, "impl": io})
@@ -508,6 +558,155 @@ def correspondence(ctx):
 
 def slim(kw):
     return vlib.canon(kw)
+
+
+def correspondence_compare_helpers(ctx, tiny, presets):
+    """the public helper methods of the comparator on their own (the test file calls them directly as well):
+    are_known_introns, are_suspicious_introns, add_extra_out_exon_events with ARBITRARY presence lists"""
+    rng = ctx.rng
+    n = 1200 if ctx.tier == "quick" else 20000
+    cases = []
+    for _ in range(n):
+        params = rng.choice(tiny + presets)
+        hi = rng.choice([10, 30, 400])
+        junctions, pos = [], rng.randint(0, 5)
+        for _ in range(rng.randint(0, 5)):
+            pos += rng.randint(1, hi // 3 + 1)
+            ln = rng.randint(1, hi // 2 + 1)
+            junctions.append((pos, pos + ln - 1))
+            pos += ln
+        if rng.random() < 0.15:
+            rng.shuffle(junctions)
+        region = (junctions[0][0] - rng.randint(1, hi) if junctions else 0, pos + rng.randint(0, hi))
+        known = sorted(set(rng.sample(junctions, rng.randint(0, len(junctions))) +
+                           [(a + rng.randint(-3, 3), a + rng.randint(0, hi)) for a in
+                            [rng.randint(0, pos + 1) for _ in range(rng.randint(0, 3))]]))
+        known = [k for k in known if k[0] <= k[1]]
+        gr = (rng.randint(0, 5), pos + rng.randint(0, hi))
+        base = {"params": CMP.params_json(params), "cparams": CMP.cparams_json(params), "known": [list(k) for k in known],
+                "gene_region": list(gr)}
+        a = rng.randint(0, max(0, len(junctions)))
+        b = rng.randint(max(0, a - 1), len(junctions) + 1)
+        jl = [list(j) for j in junctions]
+        cases.append(("known_introns", params, dict(base, junctions=jl, a=a, b=b)))
+        cases.append(("suspicious_introns", params, dict(base, junctions=jl, a=a, b=b, read_region=list(region))))
+        prof = [rng.choice([0, 0, 1, -1]) for _ in range(len(junctions) + rng.choice([0, 0, 0, 1, -1]))]
+        prof = prof[:max(0, len(prof))]
+        cases.append(("add_extra_out", params, dict(base, junctions=jl, profile=prof, read_region=list(region),
+                                                    isoform_start=rng.randint(0, pos + 1))))
+    outs = ctx.driver.run([vlib.req("C01." + op, **kw) for op, _, kw in cases])
+    for (op, params, kw), mo in zip(cases, outs):
+        ctx.evaluations += 1
+        ctx.count("op:" + op)
+        try:
+            rc = CMP.RealComparator(params, kw["known"], kw["gene_region"])
+            J = [tuple(j) for j in kw["junctions"]]
+            if op == "known_introns":
+                io = bool(rc.cmp.are_known_introns(J, (kw["a"], kw["b"])))
+            elif op == "suspicious_introns":
+                io = bool(rc.cmp.are_suspicious_introns(tuple(kw["read_region"]), J, (kw["a"], kw["b"])))
+            else:
+                evs = []
+                rc.cmp.add_extra_out_exon_events(evs, list(kw["profile"]), tuple(kw["read_region"]), J, kw["isoform_start"])
+                io = [event_json(e) for e in evs]
+        except ERRS as ex:
+            io = {"error": "error", "exc": type(ex).__name__}
+        ctx.traces_validated += 1
+        if isinstance(mo, dict) and "driver_error" in mo or not vlib.same(mo, vlib.canon(io)):
+            if len(ctx.disagreements) < 60:
+                ctx.disagree(op, kw, mo, io)
+        elif vlib.is_err(mo):
+            ctx.count("model_error")
+        else:
+            ctx.mark_nontrivial([op, kw["junctions"], kw.get("a"), kw.get("b"), kw.get("profile")])
+
+
+def correspondence_compare(ctx):
+    """model `compareJunctions` (+ its sweep: presence list / contradictory region pairs, observed at the
+    detect_contradiction_type / add_extra_out_exon_events call boundaries) against the real JunctionComparator"""
+    quick = ctx.tier == "quick"
+    rng = ctx.rng
+    isoquant, GI, LP, LA, IA, PF = _impl()
+    if not CMP.assigner_ctor_matches():
+        ctx.disagree("comparator_ctor", {}, "JunctionComparator(params, OverlappingFeaturesProfileConstructor(features, "
+                     "(start, end), comparator=partial(equal_ranges, delta)))", "LongReadAssigner.__init__ builds it differently")
+    # generated tables
+    tabs = ctx.driver.run([vlib.req("C01.cmp_tables")])[0]
+    ctx.evaluations += 1
+    impl_alt = sorted([k[0], bool(k[1]), v.name] for k, v in IA.alternative_sites.items())
+    if not isinstance(tabs, dict) or sorted(tabs.get("alternative_sites", [])) != impl_alt:
+        ctx.disagree("cmp_tables", {}, tabs, impl_alt)
+    allowed = set(tabs.get("comparator_event_types", [])) if isinstance(tabs, dict) else set()
+    cases = []
+    for name, params, known, gr, rj, rr, ij, ir, exp in CMP.test_corpus():
+        cases.append(("corpus", params, CMP.case(params, known, gr, rj, rr, ij, ir), exp))
+    ctx.extra["compare_corpus_cases"] = len(cases)
+    tiny = CMP.tiny_param_sets(rng, 12)
+    presets = [make_params(s) for s in A.PRESETS] + [make_params("default", delta=rng.choice([0, 1, 3, 8, 20]))]
+    correspondence_compare_helpers(ctx, tiny, presets)
+    # exhaustive: every pair of intron chains with <= 2 introns inside [2, 6] (x 4 region choices, tiny parameters)
+    small = CMP.small_universe(rng, 6, 2, tiny)
+    ctx.extra["compare_small_universe"] = "all pairs of chains (<= 2 introns, coordinates 2..6): %d cases" % len(small)
+    cases += [("exhaustive", p, c, None) for p, c in small]
+    for hi, mx, n in ((8, 3, 2500 if quick else 40000), (11, 4, 2500 if quick else 40000)):
+        cases += [("universe%d" % hi, p, c, None) for p, c in CMP.small_universe(rng, hi, mx, tiny, sample=n)]
+    cases += [("random", p, c, None) for p, c in CMP.random_cases(rng, 6000 if quick else 120000, presets)]
+    cases += [("malformed", p, c, None) for p, c in CMP.malformed_cases(rng, 1500 if quick else 30000, tiny + presets)]
+    # the witnesses proved in Lean (Props/C01Compare `flanking_inside_monoexon_witness`) run on the real comparator too
+    wp = make_params("default")
+    cases.append(("witness", wp, CMP.case(wp, [], (1000, 2000), [(100, 500), (1200, 1500)], (50, 1900), [], (1000, 2000)),
+                  "extra_intron_flanking_left"))
+    outs = ctx.driver.run([vlib.req("C01.compare", **c) for _, _, c, _ in cases])
+    sweeps = ctx.driver.run([vlib.req("C01.sweep", **c) for _, _, c, _ in cases])
+    tols = ctx.driver.run([vlib.req("C01.tolerance", **c) for _, _, c, _ in cases])
+    for (kind, params, c, exp), tl in zip(cases, tols):
+        # the decidable hypotheses of the theorems: Lean predicate == the oracle's Python predicate
+        ctx.evaluations += 1
+        ctx.count("op:tolerance")
+        pt = CMP.py_tolerance(c)
+        if not isinstance(tl, dict) or "driver_error" in tl or tl.get("chains_wf") != pt["chains_wf"] or \
+                tl.get("introns") != pt["introns"]:
+            if len(ctx.disagreements) < 60:
+                ctx.disagree("tolerance", c, tl, pt)
+        elif pt["chains_wf"] and any(r["far"] and not r["tolerated"] for r in pt["introns"]):
+            ctx.count("theorem3_hypotheses_met")
+    for (kind, params, c, exp), mo, sw, tl in zip(cases, outs, sweeps, tols):
+        ctx.evaluations += 1
+        ctx.count("op:compare_" + kind)
+        if isinstance(mo, dict) and "driver_error" in mo:
+            ctx.disagree("compare", c, mo, None)
+            continue
+        io, tr = CMP.impl_compare(c, params)
+        ctx.traces_validated += 1
+        ok = vlib.same(mo, io)
+        if ok and c["read_junctions"] and "pairs" in tr:
+            ok = tr["pairs"] == sw.get("pairs")
+        if ok and "read_profile" in tr:
+            ok = tr["read_profile"] == sw.get("read")
+        if ok and c["read_junctions"] and isinstance(tl, dict) and "no_contradiction" in tl:
+            # left-hand side of `no_contradiction_iff`: detect_contradiction_type is not called
+            ok = tl["no_contradiction"] == ("pairs" not in tr)
+        if not ok and not vlib.is_err(io) and vlib.canon(CMP.impl_compare_exact(c, params)) != vlib.canon(io):
+            ctx.count("float_divergence")
+            continue
+        if exp is not None and (vlib.is_err(io) or io[0][0] != exp):
+            ok = False        # the literal expectation of the test file
+        if not ok:
+            if len(ctx.disagreements) < 60:
+                ctx.disagree("compare", c, {"events": mo, "sweep": sw}, {"events": io, "trace": tr})
+            continue
+        if vlib.is_err(mo):
+            ctx.count("model_error")
+            continue
+        for e in mo:
+            ctx.count("cmp_event:" + e[0])
+            if e[0] not in allowed:
+                ctx.disagree("comparator_event_types", c, sorted(allowed), e[0])
+        if any(e[0] != "none" for e in mo):
+            ctx.mark_nontrivial(["compare", c["read_junctions"], c["read_region"], c["iso_junctions"], c["iso_region"],
+                                 c["params"]["delta"]])
+        if kind == "corpus" and len(ctx.samples) < 3:
+            ctx.sample({"op": "compare", "input": c, "model": mo, "impl": io})
 
 
 # ------------------------------------------------------------------------------------------------
@@ -1087,6 +1286,55 @@ def oracle_pipeline(ctx, strategies, n_chroms, clusters_per_chrom, reads_per_iso
     return n
 
 
+def oracle_comparator(ctx, n):
+    """clauses (2) and (3) of Props/C01Compare / C01Converse evaluated on the REAL comparator, inside the domain of the
+    theorems (py_chains_wf): (2) detect_contradiction_type is consulted iff some read intron overlapping the isoform span /
+    isoform intron overlapping the read span has no partner within delta; (3) a read intron with no isoform intron within
+    delta and outside every tolerance class gets a major event.  A broken instance is turned into a single-isoform
+    annotation and judged by the property oracle `check_assignment` (the assignment type of the real assigner)."""
+    rng = ctx.rng
+    isoquant, GI, LP, LA, IA, PF = _impl()
+    major = {e.name for e in IA.nic_event_types} | {e.name for e in IA.nnic_event_types}
+    presets = [(s, make_params(s)) for s in A.PRESETS]
+    by_obj = {id(p): s for s, p in presets}
+    n_inst = 0
+    for params, c in CMP.wf_cases(rng, n, [p for _, p in presets]):
+        io, tr = CMP.impl_compare(c, params)
+        if vlib.is_err(io):
+            ctx.fail("comparator_raises", {"mode": "comparator", "case": c, "strategy": by_obj.get(id(params), "default")},
+                     str(io))
+            continue
+        tol = CMP.py_tolerance(c)
+        broken = []
+        if c["iso_junctions"] and (("pairs" not in tr) != CMP.py_no_contradiction_rhs(c)):
+            broken.append("no_contradiction_iff")
+        for i, row in enumerate(tol["introns"]):
+            if row["far"] and not row["tolerated"]:
+                n_inst += 1
+                if not any(e[0] in major for e in io):
+                    broken.append("far_intron_major_event[%d]" % i)
+        ctx.count("oracle:comparator_cases")
+        if not broken:
+            continue
+        ctx.count("oracle:comparator_clause_broken")
+        # property level: the read against the annotation that consists of this isoform only
+        strategy = by_obj.get(id(params), "default")
+        exons = CMP.blocks_of(c["iso_region"], [tuple(x) for x in c["iso_junctions"]])
+        blocks = CMP.blocks_of(c["read_region"], [tuple(x) for x in c["read_junctions"]])
+        if not (A.valid_blocks(exons) and A.valid_blocks(blocks)):
+            continue
+        isoforms = [{"id": "t0000", "gene": "g0", "strand": "+", "exons": exons}]
+        try:
+            fails, res = oracle_inprocess_case(isoforms, strategy, blocks, [-1, -1, -1, -1])
+        except ERRS:
+            continue
+        for k, detail in fails:
+            ctx.fail(k, {"mode": "inprocess", "isoforms": strip(isoforms), "strategy": strategy,
+                         "blocks": [list(b) for b in blocks], "polya": [-1, -1, -1, -1], "reported_events": res["events"],
+                         "comparator_clauses": broken}, detail + " | comparator clauses broken: %s" % broken)
+    ctx.extra["oracle_theorem3_instances"] = n_inst
+
+
 def in_domain(isoforms, blocks, polya, delta):
     """the input domain on which the oracle may judge an arbitrary (correspondence-generated) input: the property's
     tolerances are stated for real exons / introns; micro-features (shorter than the fake-terminal-exon, absence-overlap
@@ -1135,6 +1383,7 @@ def oracle(ctx, disagreements, broken):
     quick = ctx.tier == "quick"
     n = oracle_inprocess(ctx, 150 if quick else 3000, 3 if quick else 5)
     ctx.extra["oracle_inprocess_reads"] = n
+    oracle_comparator(ctx, 1500 if quick else 30000)
     # 3. the same check on read_assignments.tsv of real pipeline runs, one per matching strategy
     n = oracle_pipeline(ctx, A.PRESETS, 2 if quick else 4, 6 if quick else 14, 5 if quick else 12)
     ctx.extra["oracle_pipeline_reads"] = n
@@ -1180,6 +1429,11 @@ def replay(ctx, failure):
     """re-run one failing input on the real code (pipeline failures are replayed in-process on the same annotation,
     blocks and tail: same profile constructor and assigner as the pipeline uses)"""
     inp = failure["input"]
+    if inp.get("mode") == "comparator" and "case" in inp:
+        c = inp["case"]
+        params = make_params(inp.get("strategy", "default"))
+        params.delta = c["params"]["delta"]
+        return vlib.is_err(CMP.impl_compare(c, params)[0])
     if "isoforms" not in inp:
         return False
     isoforms = [{"id": t["id"], "gene": t["gene"], "strand": t["strand"], "exons": [tuple(e) for e in t["exons"]]}
